@@ -350,7 +350,7 @@ def build_and_import(ctx, rec, root):
     if r.rc != 0 or r.timed_out:
         return "interrogate_module failed (rc=%s) on acyclic graph %r" % (r.rc, g), dict(stderr=r.stderr[-1500:])
     pyinc = sysconfig.get_paths()["include"]
-    flags = ["-std=c++17", "-O0", "-fPIC", "-w", "-DHAVE_PYTHON", "-D__published=public",
+    flags = ["-std=c++17", "-O0", "-fPIC", "-w", "-DHAVE_PYTHON", "-D__published=public", "-D__begin_publish=", "-D__end_publish=",
              "-I" + SHIMS, "-I" + pyinc, "-I" + os.path.join(REPO, "src", "interrogatedb"),
              "-I" + os.path.join(REPO, "src", "dtoolbase")]
     for nm in names[:n]:
